@@ -98,13 +98,24 @@ func TomlKeyToEvCode(key string, lookupTable map[string]evdev.EvCode) (evdev.EvC
 
 }
 
+// decodeTOML runs the decoder, go-toml panics on some well-formed but ill-typed files
+// (e.g. a date where a number is expected), such panic is converted into an error
+func decodeTOML(d *toml.Decoder, v interface{}) (err error) {
+	defer func() {
+		if r := recover(); r != nil {
+			err = fmt.Errorf("%v", r)
+		}
+	}()
+	return d.Decode(v)
+}
+
 func ParseData(data []byte) (Config, error) {
 	cfg := TOMLDeviceConfig{}
 
 	d := toml.NewDecoder(bytes.NewReader(data))
 	d.DisallowUnknownFields()
 
-	err := d.Decode(&cfg)
+	err := decodeTOML(d, &cfg)
 	if err != nil {
 		return Config{}, fmt.Errorf("parsing failed: %w", err)
 	}
